@@ -1781,6 +1781,7 @@ func RunFrame(frame *py.Frame) (res py.Object, err error) {
 		if debugging {
 			debugf("* %4d:", frame.Lasti)
 		}
+		verifAddr := frame.Lasti
 		opcode = OpCode(opcodes[frame.Lasti])
 		frame.Lasti++
 		if opcode.HAS_ARG() {
@@ -1798,6 +1799,9 @@ func RunFrame(frame *py.Frame) (res py.Object, err error) {
 			if debugging {
 				debugf(" %v\n", opcode)
 			}
+		}
+		if verifEnabled && VerifInstr != nil {
+			VerifInstr(frame, opcode, arg, verifAddr)
 		}
 		vm.extended = false
 		err = jumpTable[opcode](&vm, arg)
